@@ -124,3 +124,57 @@ Lemma sdemo_run :
   last (snd r) [] = [SReturned [0; 1; 2; 3; 4]] /\ phase (base (fst r)) = Finished /\
   exception (base (fst r)) = false /\ ifail (base (fst r)) = None.
 Proof. vm_compute. auto. Qed.
+
+(* ---------------- C09 (sync): once the abort flag is up nothing more is taken or submitted ---------------- *)
+Lemma adv_s_input b : aborting b = true ->
+  input_fields (base (fst (adv_s b))) = input_fields b /\ aborting (base (fst (adv_s b))) = true.
+Proof.
+  intros Hab.
+  assert (Hd : forall x, aborting x = true ->
+            input_fields (base (fst (drain_s x))) = input_fields x /\ aborting (base (fst (drain_s x))) = true).
+  { intros x Hx. unfold drain_s. destruct (phase x) as [ | | | |rem| ]; cbn [fst base]; auto.
+    destruct rem; cbn [fst base]; auto. }
+  unfold adv_s. destruct (phase b) as [ | | | |rem| ]; cbn [fst base]; auto.
+  rewrite Hab. destruct (first_failed b); cbn [fst base].
+  - split; [reflexivity|]. cbn. rewrite Hab. reflexivity.
+  - assert (Hl : aborting (loop_exit b) = true) by (unfold loop_exit; cbn; rewrite Hab; reflexivity).
+    destruct (Hd (loop_exit b) Hl) as [A B]. split; [rewrite A; reflexivity | exact B].
+Qed.
+
+Theorem sync_stop_after_abort s e : aborting (base s) = true -> (forall cf n f, e <> SCall cf n f) ->
+  input_fields (base (fst (sstep s e))) = input_fields (base s) /\ aborting (base (fst (sstep s e))) = true.
+Proof.
+  intros Hab Hne. destruct s as [b k]. cbn [base blk] in *.
+  destruct e as [cf n f|bs|t bs|o]; cbn [sstep base blk].
+  - exfalso. eapply Hne. reflexivity.
+  - destruct k as [j|]; [destruct (phase b); cbn; auto|].
+    destruct (stop_after_abort true b (EDispatch bs) Hab ltac:(intros; discriminate)) as [_ _].
+    assert (Hraw : input_fields (fst (step_raw true b (EDispatch bs))) = input_fields b /\
+                   aborting (fst (step_raw true b (EDispatch bs))) = true).
+    { cbn [step_raw]. destruct (phase b); cbn [fst]; auto; rewrite (dispatch_aborting b bs false Hab); cbn; rewrite ?Hab; cbn; auto. }
+    destruct Hraw as [A B].
+    destruct (phase b); try (cbn; auto; fail); rewrite fst_lift;
+      destruct (adv_s_input _ B) as [C D]; (split; [congruence | exact D]).
+  - assert (Hcs : input_fields (cb_sync b t bs) = input_fields b /\ aborting (cb_sync b t bs) = true).
+    { unfold cb_sync. destruct (get_trk b t) as [tk|] eqn:Hk; [|auto].
+      destruct (mem_id t (inflight b)); [|auto].
+      assert (He : input_fields (cb_enter b t) = input_fields b /\ aborting (cb_enter b t) = true).
+      { unfold cb_enter. rewrite Hk. rewrite Hab, orb_true_r. cbn. auto. }
+      destruct He as [E1 E2].
+      unfold cb_finish. destruct (get_trk (cb_enter b t) t) as [k2|]; [|auto].
+      destruct (negb (mem_id t (cbmid (cb_enter b t)))); [auto|].
+      destruct (true && negb (tk_cid k2 =? cid (cb_enter b t))); [cbn; rewrite <- E1; auto|].
+      set (s1 := mark_closed _ t).
+      assert (Hab1 : aborting s1 = true) by exact E2.
+      assert (Hin1 : input_fields s1 = input_fields b) by (rewrite <- E1; reflexivity).
+      destruct (orig s1); [|auto].
+      rewrite (dispatch_aborting s1 bs true Hab1). cbn. rewrite <- Hin1. auto. }
+    destruct Hcs as [A B].
+    destruct k as [j|]; cbn [fst base]; [auto|]. rewrite fst_lift.
+    destruct (adv_s_input _ B) as [C D]. split; [congruence | exact D].
+  - destruct k as [j|]; [|cbn; auto].
+    destruct o as [e|]; cbn [fst base].
+    + split; [reflexivity|]. cbn. rewrite Hab. reflexivity.
+    + rewrite fst_lift. assert (B : aborting (deliver_list b (tasks_of b j)) = true) by exact Hab.
+      destruct (adv_s_input _ B) as [C D]. split; [rewrite C; reflexivity | exact D].
+Qed.
